@@ -19,6 +19,8 @@ mod k_naming;
 mod k_gen;
 #[cfg(feature = "k_path")]
 mod k_path;
+#[cfg(feature = "k_gen")]
+mod k_graph;
 #[cfg(any(feature = "k_gen", feature = "k_path"))]
 mod facts;
 #[cfg(feature = "k_gen")]
@@ -39,6 +41,8 @@ fn dispatch(op: &str, input: &mut Value) -> OpResult {
     "resp" => k_resp::eval(op, input),
     #[cfg(feature = "k_gen")]
     "client" | "server" => k_resp::eval_op(op, input),
+    #[cfg(feature = "k_gen")]
+    "graph" => k_graph::eval(op, input),
     #[cfg(feature = "k_gen")]
     "interop" => k_resp::eval_interop(op, input),
     _ => Err(format!("unknown-op:{op}")),
